@@ -137,6 +137,51 @@ func c15Exprs(s *source, fd *ast.FuncDecl) []string {
 	return out
 }
 
+// c15Users: how the users named by the property's anchors build the ring and dispatch a key:
+//   <func>:<call>   every call of hash.NewConsistentHash / <x>.AddWithWeight / <x>.dispatcher.Get / .Add / .Remove /
+//                   .AddWithReplicas on a dispatcher, with the function it occurs in
+//   <func>:range:<header>, <func>:if:<cond>  loops and conditions of the constructor
+func c15Users(s *source, rel string, ctor string) []string {
+	f := s.file(rel)
+	if f == nil {
+		return []string{"MISSING " + rel}
+	}
+	var out []string
+	for _, d := range f.Decls {
+		fd, ok := d.(*ast.FuncDecl)
+		if !ok || fd.Body == nil {
+			continue
+		}
+		name := fd.Name.Name
+		ast.Inspect(fd.Body, func(n ast.Node) bool {
+			switch x := n.(type) {
+			case *ast.CallExpr:
+				fn := s.src(x.Fun)
+				if fn == "hash.NewConsistentHash" || fn == "hash.NewCustomConsistentHash" ||
+					strings.HasSuffix(fn, "ispatcher.AddWithWeight") || strings.HasSuffix(fn, "ispatcher.Get") ||
+					strings.HasSuffix(fn, "ispatcher.Add") || strings.HasSuffix(fn, "ispatcher.AddWithReplicas") ||
+					strings.HasSuffix(fn, "ispatcher.Remove") {
+					out = append(out, name+":"+s.src(x))
+				}
+			case *ast.RangeStmt:
+				if name == ctor {
+					out = append(out, name+":range:"+s.src(x.Key)+","+s.src(x.Value)+":="+s.src(x.X))
+				}
+			case *ast.IfStmt:
+				if name == ctor {
+					out = append(out, name+":if:"+s.src(x.Cond))
+				}
+			case *ast.AssignStmt:
+				if name == ctor && len(x.Lhs) == 1 && s.src(x.Lhs[0]) == "cn" {
+					out = append(out, name+":"+s.src(x))
+				}
+			}
+			return true
+		})
+	}
+	return out
+}
+
 func init() {
 	register("C15", func(s *source, e *emitter) {
 		const f = "core/hash/consistenthash.go"
@@ -165,6 +210,14 @@ func init() {
 			e.shapeDef(s, f, fn[0], fn[1]+"Shape")
 			e.stringList(fn[1]+"Exprs", "hashed bytes, search predicates, orderings, `%` of `"+fn[0]+"`", c15Exprs(s, fd))
 		}
+		// the users of the ring
+		e.stringList("cacheUsers", "ring construction and dispatch in core/stores/cache/cache.go", c15Users(s, "core/stores/cache/cache.go", "New"))
+		e.stringList("kvUsers", "ring construction and dispatch in core/stores/kv/store.go", c15Users(s, "core/stores/kv/store.go", "NewStore"))
+		e.shapeDef(s, "core/stores/cache/cachenode.go", "cacheNode.String", "cacheNodeStringShape")
+		e.stringList("cacheNodeStringExprs", "repr of a cache node", c15Exprs(s, s.findFunc("core/stores/cache/cachenode.go", "cacheNode.String")))
+		e.stringList("redisStringExprs", "repr of a redis node", c15Exprs(s, s.findFunc("core/stores/redis/redis.go", "Redis.String")))
+		e.stringList("totalWeightsExprs", "TotalWeights", c15Exprs(s, s.findFunc("core/stores/cache/util.go", "TotalWeights")))
+		e.shapeDef(s, "core/stores/cache/util.go", "TotalWeights", "totalWeightsShape")
 		// the default hash
 		e.stringList("hashExprs", "what `Hash` computes", c15Exprs(s, s.findFunc("core/hash/hash.go", "Hash")))
 	})
